@@ -302,6 +302,15 @@ void HyperSession::run() {
             JunctionRef *j = js[(size_t)op.i("k", 0) % js.size()];
             e2 = guarded([&] { router->moveJunction(j, Point(op["pt"][0].num(), op["pt"][1].num())); });
             probe("hyper.moveJunction");
+        } else if (o == "fixRoute") {
+            // the client pins the current route of one connector of the scene (ConnRef::setFixedExistingRoute): improvement must
+            // leave that connector, and the junction it ends in, where they are
+            if (viaTerminals) continue;
+            std::vector<ConnRef *> cs; { HarnessScope hs; for (ConnRef *c : router->connRefs) if (c->route().size() >= 2 && !c->hasFixedRoute()) cs.push_back(c); }
+            if (cs.empty()) continue;
+            ConnRef *c = cs[(size_t)op.i("k", 0) % cs.size()];
+            e2 = guarded([&] { c->setFixedExistingRoute(); });
+            probe("hyper.fixRoute");
         } else if (o == "reroute") {
             std::vector<JunctionRef *> js = liveJunctions();
             if (js.empty() || viaTerminals) continue;
@@ -391,6 +400,29 @@ Json genHyperSession(Rng &r, const std::string &tier) {
     auto proc = [&]() { Json o = Json::obj(); o.set("op", "process"); ops.push(o); };
     proc();
     if (r.chance(0.5)) proc();
+    {
+        // side stream: one connector gets its route fixed after the first transactions; from then on only shapes that carry no
+        // terminal are moved (a moved junction or terminal would leave the fixed route behind by the client's own doing)
+        Rng r2(Rng::mix(r.s, "fixed-route-in-hyperedge"));
+        if (r2.chance(0.2) && pos < n) {
+            Json f = Json::obj(); f.set("op", "fixRoute"); f.set("k", (long)r2.below(8)); ops.push(f);
+            int st2 = r2.range(1, 3);
+            for (int st = 0; st < st2; st++) {
+                int i = order[(size_t)(pos + (int)r2.below((uint64_t)(n - pos)))]; RectB c = rs[(size_t)i];
+                double dx = 10 * (double)r2.range(-4, 4), dy = 10 * (double)r2.range(-4, 4);
+                c.x += dx; c.y += dy;
+                bool ok = true;
+                for (int k = 0; k < n; k++) if (k != i && rectsOverlap(c, rs[(size_t)k], 40)) ok = false;
+                for (auto &q : jpts) if (q.x >= c.x - 15 && q.x <= c.x + c.w + 15 && q.y >= c.y - 15 && q.y <= c.y + c.h + 15) ok = false;
+                if (!ok) { dx = 0; dy = 0; } else rs[(size_t)i] = c;
+                Json o = Json::obj(); o.set("op", "moveShape"); o.set("id", (long)ids[(size_t)i]); o.set("dx", dx); o.set("dy", dy); ops.push(o);
+                proc();
+            }
+            s.set("ops", ops);
+            Json cfg2 = s["cfg"]; cfg2.set("style", cfg2.str("style", "") + "+fixed-route"); s.set("cfg", cfg2);
+            return s;
+        }
+    }
     int steps = r.range(1, 6);
     for (int st = 0; st < steps; st++) {
         int what = (int)r.below(10);
